@@ -59,6 +59,11 @@ CHECKS = {
          "All histories of length <=3 (quick) / <=4 (thorough) over a 31-request alphabet (evaluations of sources sharing ext-var values incl. failing assertions, failing fields, stack overflows; re-evaluation of persistent thunks; eval_call with shared argument thunks; explicit gc; manifestations) are executed on one long-lived Program; each request must answer exactly as it does when issued first on a fresh state.",
          "Trusted: nothing beyond the harness (no hand-written expectations); histories above the bound and requests outside the alphabet are not covered.",
          "DESIGN.md §4 C11"),
+ "C17": ("model_checking",
+         "exhaustive enumeration of short arrays and deviation-bounded enumeration (0, 1, 2 deviations) of long arrays and of all set pairs against a stable-sort / set-algebra model",
+         "Elements are [key, id] pairs. All arrays of length <=6/8 over 3 keys x 3 key kinds; every length in the list x 7 base patterns with every single deviation and, at the merge thresholds, every pair of deviations; all 64x64 set pairs over a 6-key universe with and without keyF; setMember on every set size 1..64; long arrays up to 5000 elements under the default frame limit. std.sort must be the stable sort, uniq/set/minArray/maxArray/setUnion/Inter/Diff/setMember must equal the model (ties taken from the left operand).",
+         "Trusted: Vec::sort_by_key (stable) as the sorting model; key values outside the small universes are not covered.",
+         "DESIGN.md §4 C17"),
 }
 def main():
     hooks = subprocess.run(["git","-C","/repo","log","--format=%H %s"],capture_output=True,text=True).stdout.splitlines()
